@@ -95,18 +95,19 @@ Theorem C25_fqn : forall fs main, main <> BASE ->
 Proof. exact classes_fqn. Qed.
 Print Assumptions C25_fqn.
 
-(* One class per (grammar file, rule): two table entries never share a class object, and
-   (with C25_fqn) an entry's class is determined by its namespace and rule name, however
-   many import paths lead to the file. *)
-Theorem C25_one_class_set_per_file_partial : forall fs main, main <> BASE ->
-  forall a n c a' n' c',
-    lookup_in (load_main fs main) a n = Some c -> lookup_in (load_main fs main) a' n' = Some c' ->
-    c_id c = c_id c' -> a = a' /\ n = n'.
-Proof. exact classes_distinct. Qed.
-Print Assumptions C25_one_class_set_per_file_partial.
-(* Not proved (full statement): created = 9 + sum of the rule counts of the files read, i.e.
-   classes are created only by reading a file, once per rule; compared on every case by the
-   correspondence (field C) and stated by the oracle instead. *)
+(* One set of classes per grammar file, however many import paths lead to it: two table
+   entries never share a class object (with C25_fqn an entry's class is determined by its
+   namespace and rule name), and a successful load creates, besides the 9 built-in classes,
+   exactly one class per rule of every file read (each file being read once,
+   C25_each_file_read_once). *)
+Theorem C25_one_class_set_per_file : forall fs main, main <> BASE ->
+  (forall a n c a' n' c',
+     lookup_in (load_main fs main) a n = Some c -> lookup_in (load_main fs main) a' n' = Some c' ->
+     c_id c = c_id c' -> a = a' /\ n = n') /\
+  (serr (load_main fs main) = None ->
+   created (load_main fs main) = length base_names + nrules_of fs (loads (load_main fs main))).
+Proof. exact one_class_set. Qed.
+Print Assumptions C25_one_class_set_per_file.
 
 (* Every grammar file is read at most once, however many import paths (or cycles) lead to
    it; holds for failed loads too. *)
@@ -144,6 +145,7 @@ Example C25_nonvacuous :
   aget BASE ex_diamond = None /\ serr (load_main ex_diamond [97]%N) = None /\
   backs (load_main ex_diamond [97]%N) = [] /\ length (links (load_main ex_diamond [97]%N)) = 6 /\
   loads (load_main ex_diamond [97]%N) = [[97]; [98]; [100]; [99]]%N /\
+  created (load_main ex_diamond [97]%N) = 9 + 8 /\ nrules_of ex_diamond [[97]; [98]; [100]; [99]]%N = 8 /\
   option_map cls_key (lookup (load_main ex_diamond [97]%N) [97]%N [87]%N) = Some ([99], [87])%N /\
   option_map cls_key (lookup (load_main ex_diamond [97]%N) [97]%N [88]%N) = Some ([98], [88])%N /\
   option_map cls_key (lookup (load_main ex_diamond [97]%N) [97]%N [89]%N) = Some ([97], [89])%N.
